@@ -1363,8 +1363,12 @@ class TTNS(TTNBase):
             new_node.tensor = np.zeros(new_shape, dtype=dtype)
             indices1 = tuple(indices1)
             indices2 = tuple(indices2)
-            new_node.tensor[indices1] = tensor1
-            new_node.tensor[indices2] = tensor2
+            if indices1 == indices2:
+                # a tree of a single node: no virtual index to extend
+                new_node.tensor[indices1] = tensor1 + tensor2
+            else:
+                new_node.tensor[indices1] = tensor1
+                new_node.tensor[indices2] = tensor2
             if node1 is self.root:
                 np.testing.assert_allclose(node1.qn, node2.qn)
                 new_node.qn = node1.qn.copy()
